@@ -271,6 +271,9 @@ func TestC17(t *testing.T) {
 				covered := map[string]bool{}
 				for _, sc := range scenarios {
 					covered[sc.service] = true
+					// the scenario of a service also exercises the goroutines its methods start: the graph of
+					// their shared local variables (translator/locals.go) is judged with the service's own
+					covered[sc.service+"_locals"] = true
 				}
 				for _, m := range meta {
 					if !covered[m.Name] {
